@@ -1000,6 +1000,58 @@ def r11_resume_label_abandons_active_calls(ctx, rule="C05.R11"):
     ctx.require(rule, 3)
 
 
+def _deep_field_writes(prog, fn, region, depth=2):
+    """fields assigned, or emptied through take / replace / insert / clear, in the region and in the
+    same-file helpers it calls"""
+    out = set(common.field_writes(fn.body, region))
+    pv = mir.Prov(fn.body)
+    for b, t in mir.region_calls(fn.body, region):
+        if t["args"] and mir.callee_path(t).split("::")[-1] in ("take", "replace", "insert", "clear", "truncate"):
+            o = mir.strip_refs(pv.of_operand(t["args"][0]))
+            if o[0] == "field" and isinstance(o[2], str):
+                out.add(o[2])
+        g = prog.fns.get(t.get("res") or mir.callee_of(t))
+        if depth and g is not None and g.id != fn.id and g.file == fn.file and g.body is not None:
+            whole = [b2 for b2 in range(g.body.nblocks) if not g.body.is_cleanup(b2)]
+            out |= _deep_field_writes(prog, g, whole, depth - 1)
+    return out
+
+
+def r12_resume_ends_error_handling(ctx, rule="C05.R12"):
+    """Entering a handler puts the VM into `handling an error`: the handler edge of the fetch-execute loop
+    sets fields of the interpreter (the address of the failing statement, what RETURN may not reach while the
+    handler runs ...).  Every RESUME form ends that mode, so each RESUME arm (or a helper it calls) must write
+    every one of those fields again; a field it leaves set keeps restricting the program after the handler has
+    resumed - e.g. RETURN keeps refusing the GOSUB addresses that were pending when the error was raised."""
+    prog = ctx.prog
+    interp, sw = common.error_dispatch(prog)
+    tgt = sw.arms.get("Address", sw.otherwise)
+    region = mir.arm_region(interp.body, sw.bb, tgt)
+    own = {a.get("name") or a.get("path", "").split("::")[-1] for a in ()}
+    set_fields = {f for f in _deep_field_writes(prog, interp, region) if not str(f).isdigit()}
+    # only fields of the interpreter itself (not of the loop's local context struct)
+    one = ctx.anchor_method("Interpreter", "interpret_one")
+    interp_fields = set()
+    for adt in prog.adts.values():
+        if adt["path"].endswith("::Interpreter"):
+            for v in adt["variants"]:
+                interp_fields |= {fl["name"] for fl in v["fields"]}
+    set_fields &= interp_fields
+    if "last_error_address" not in set_fields:
+        raise CheckError("%s: the handler edge does not set last_error_address (anchor lost): %s" % (rule, sorted(set_fields)))
+    sw1, regions = _arm_regions(prog, one, "::Instruction")
+    for v in ("Resume", "ResumeNext", "ResumeLabel"):
+        if v not in regions:
+            raise CheckError("interpret_one has no arm for Instruction::%s" % v)
+        written = _deep_field_writes(prog, one, regions[v])
+        for f in sorted(set_fields):
+            ctx.decide(f in written, rule, "%s:%s:resets:%s" % (rule, v, f), one.loc, "%s writes %s" % (v, f),
+                       "the handler edge sets `%s` when a handler is entered but the %s arm never writes it: the VM stays "
+                       "in error-handling mode for that field after the handler has resumed" % (f, v))
+    ctx.analysed_units(rule, fields_set_on_handler_entry=sorted(set_fields))
+    ctx.require(rule, 6)
+
+
 def run(ctx):
     common.install(ctx)
     r1_error_codes(ctx)
@@ -1014,3 +1066,4 @@ def run(ctx):
     r9_every_emitting_statement_is_marked(ctx)
     r10_no_handler_reentry(ctx)
     r11_resume_label_abandons_active_calls(ctx)
+    r12_resume_ends_error_handling(ctx)
